@@ -1313,7 +1313,10 @@ def _dirty_unused(st, o, probes):
     P = np.zeros((s.dim, nv + extra))
     P[:, newid] = s.p_all
     rest = np.setdiff1d(np.arange(nv + extra), newid)
-    P[:, rest] = g.uniform(7, 8, size=(s.dim, extra))
+    # far from the mesh, in units of the mesh (it may be of any size)
+    span = K.scale_of(s.p)
+    P[:, rest] = s.p.min(axis=1)[:, None] + \
+        span * g.uniform(7, 8, size=(s.dim, extra))
     r = type(m)(P, newid[np.array(m.t)].astype(np.int32))
     ns = Snap(r)
     K.check_valid(ns, allow_unused=True)
